@@ -5,6 +5,7 @@ static void init() { static bool done = false; if (!done) { Py_Initialize(); don
 extern "C" {
 PyObject *vpy_int(long v) { init(); return PyLong_FromLong(v); }
 PyObject *vpy_uint(unsigned long v) { init(); return PyLong_FromUnsignedLong(v); }
+PyObject *vpy_ptr(void *p) { init(); return PyLong_FromVoidPtr(p); }
 PyObject *vpy_float(double d) { init(); return PyFloat_FromDouble(d); }
 PyObject *vpy_bool(bool b) { init(); return PyBool_FromLong(b); }
 PyObject *vpy_str(const char *s) { init(); return PyUnicode_DecodeLatin1(s, strlen(s), 0); }
